@@ -291,10 +291,61 @@ def event_bytes(ctx, rep):
         len(qs), '; RemoteReceiveEvent.encode gives the specification\'s byte (repaired) for %d flag sets' % repaired if repaired else ''))
 
 
+def event_log(ctx, rep, n):
+    """ModbusControlBlock.addEvent / getEvents / clearEvents (the singleton the FC 12 reply reads) against Events.runLog:
+    histories of 0..200 addEvent calls; the log is emptied again afterwards."""
+    from pymodbus import events as ev
+    from pymodbus.device import ModbusControlBlock
+    rng = ctx.rng
+    mcb = ModbusControlBlock()
+    names = {'recv': (ev.RemoteReceiveEvent, ['overrun', 'listen', 'broadcast']),
+             'send': (ev.RemoteSendEvent, ['read', 'slave_abort', 'slave_busy', 'slave_nak', 'write_timeout', 'listen']),
+             'listen': (ev.EnteredListenModeEvent, []), 'restart': (ev.CommunicationRestartEvent, [])}
+    hists = []
+    for i in range(n):
+        ln = rng.choice([0, 1, 2, 63, 64, 65, 66, 130, rng.randrange(0, 201)])
+        h = []
+        for _ in range(ln):
+            k = rng.choice(['recv', 'send', 'send', 'listen', 'restart'])
+            h.append({'kind': k, 'flags': [rng.randrange(2) for _ in names[k][1]]})
+        hists.append(h)
+    answers = ctx.driver.query([{'op': 'eventlog', 'events': h} for h in hists])
+    for h, m in zip(hists, answers):
+        case = {'kind': 'eventlog', 'events': h}
+        rep.case(case, nontrivial=len(h) > 0, tag='eventlog')
+        saved = mcb.Counter.Event
+        try:
+            mcb.clearEvents()
+            for e in h:
+                cls, fl = names[e['kind']]
+                mcb.addEvent(cls(**dict(zip(fl, map(bool, e['flags'])))))
+            got = list(mcb.getEvents())
+            impl = {'bytes': got, 'n': len(got), 'counted': (mcb.Counter.Event - saved) % 65536 if isinstance(mcb.Counter.Event, int) else None}
+        except Exception as e:  # noqa
+            impl = {'err': errkind(e)}
+        finally:
+            mcb.clearEvents()
+            mcb.Counter.Event = saved
+        if 'err' in m or 'driver_error' in m:
+            rep.compare(case, impl, m, 'event log vs Events.runLog')
+            continue
+        # RemoteReceiveEvent.encode: as coded or repaired (see event_bytes); compare modulo that one encoder
+        want = dict(m, counted=len(h) % 65536)
+        if impl != want and 'bytes' in impl and len(impl['bytes']) == len(want['bytes']):
+            newest_first = list(reversed(h))[:64]
+            patched = [(16 * e['flags'][0] + 32 * e['flags'][1] + 64 * e['flags'][2] + 128) if e['kind'] == 'recv' else b
+                       for e, b in zip(newest_first, want['bytes'])]
+            if impl['bytes'] == patched:
+                rep.traces_validated += 1
+                continue
+        rep.compare(case, impl, want, 'event log vs Events.runLog')
+
+
 def run(ctx):
     rep = Report(RULE)
     rng = ctx.rng
     event_bytes(ctx, rep)
+    event_log(ctx, rep, ctx.scale(300, 6000))
     _vendor_decoders = decoder_isolation(rep)      # kept alive: everything decoded below must not be affected either
     for c in ctx.corpus():
         check_batch(ctx, rep, c['dir'], [c['msg']], with_mutants=False)
@@ -320,6 +371,8 @@ def replay(ctx, payload):
         check_batch(ctx, rep, c['dir'], [c['msg']], with_mutants=False)
     elif c['kind'] == 'event':
         event_bytes(ctx, rep)
+    elif c['kind'] == 'eventlog':
+        return 'replay of an event-log history: re-run the check with the recorded seed (the case lists the addEvent calls)'
     else:
         d = ctx.driver.query([{'op': 'codec', 'dir': 'dec_req' if c['dir'] == 'req' else 'dec_resp', 'bytes': c['bytes']}])[0]
         got = (impl_dec_req if c['dir'] == 'req' else impl_dec_resp)(c['bytes'])
